@@ -11,6 +11,9 @@ namespace SkNet.Svg
 /-- every printed number is an attribute-safe token -/
 def SafeNums (ν : Nums) : Prop := ∀ s i j, SafeStr (ν s i j)
 
+/-- `np.argsort` returns a permutation of the positions (its contract; the order among equal keys is not assumed) -/
+def SortOk (ν : Nums) : Prop := ∀ d : List Int, (ν.argsort d).Perm (List.range d.length)
+
 /-! ### attribute lists -/
 
 def keysUnique : List PyStr → Bool
@@ -351,9 +354,10 @@ theorem edgeLabelStep_resid {nRow nCol : Nat} {es posEs : List Entry} {colors : 
         · exact hst p hp
         · subst hp; exact AllSafe.getD hc _
 
-theorem getEdgeColors_safe {nRow nCol : Nat} {es : List Entry} {labs : List (Int × Int × Int)} {edgeColor : PyStr}
+theorem getEdgeColors_safe {sort : List Int → List Nat} {nRow nCol : Nat} {es : List Entry}
+    {labs : List (Int × Int × Int)} {edgeColor : PyStr}
     {lc : LabelColors} {ec : EdgeColors} (he : SafeStr edgeColor) (hlc : SafeLabelColors lc)
-    (h : getEdgeColors nRow nCol es labs edgeColor lc = .ok ec) : AllSafe ec.colors ∧ ResidSafe ec.residual := by
+    (h : getEdgeColors sort nRow nCol es labs edgeColor lc = .ok ec) : AllSafe ec.colors ∧ ResidSafe ec.residual := by
   unfold getEdgeColors at h
   simp only at h
   split at h
